@@ -668,3 +668,9 @@ class gf_contents_modified:
         yield "nothing-written", len([e for e in cur().trace if e[0] == "write"]) == 0
 
     loops = {0: Loop(invariant=lambda v: _all_given(v.new_items, v.i_))}
+
+
+# the container shortcut `gridflow[p]` (contracts/C08_focus.py): the body of WidgetContainerMixin.__getitem__ verified for a GridFlow receiver
+from contracts.C08_focus import _getitem_contract  # noqa: E402
+
+container_getitem_gridflow = _getitem_contract(GRIDFLOW, GINL, alias="gridflow")
